@@ -212,7 +212,7 @@ REPLAYS = [("times.*", _replay)]
       functions=[("_transformations/caching.py", "_to_naive_utc_time"), ("_transformations/caching.py", "_get_stale_nodes.<locals>.process"),
                  ("_transformations/caching.py", "_get_stale_nodes.<locals>.process_no_stale_ancestor"), ("_transformations/caching.py", "_get_stale_nodes"),
                  ("_transformations/caching.py", "_get_stale_nodes.<locals>.process_with_callbacks"), ("stores/_file_store.py", "get_modified_time"),
-                 ("stores/_file_store.py", "FileStore.get_modified_time")],
+                 ("stores/_file_store.py", "FileStore.get_modified_time"), ("_util/__init__.py", "safe_max")],
       assumptions=["bounded stand-in: 4 time zones x 4 instant triples x 27 representations; 5 zones x 4 file mtimes"],
       min_obligations=1, kind="bounded")
 def times_bounded(ctx):
